@@ -91,7 +91,7 @@ func genCosts(r *rng, nStages int, costStages []int, n int) ([]CostProf, string)
 		return costs, "none"
 	}
 	base := pick(r, int64(250_000), 300_000, 400_000, 1_000_000)
-	kind := pick(r, "zero", "uniform", "uniform", "uniform", "uniform", "cheap-then-exp", "exp-then-cheap", "heavy-tail", "per-stage")
+	kind := pick(r, "zero", "uniform", "uniform", "uniform", "uniform", "uniform", "cheap-then-exp", "cheap-then-exp", "exp-then-cheap", "heavy-tail", "per-stage")
 	for _, s := range costStages {
 		switch kind {
 		case "zero":
@@ -134,6 +134,24 @@ func genC06(r *rng, tier string) *Case {
 	p.B = pick(r, 0, 1, 3, 10, 30)
 	p.Src = pick(r, "numbers", "numbers", "numbers", "arglist", "hostlist")
 	p.Stages = genPipeStages(r, pick(r, 1, 2, 2, 3, 3, 4, 6), lazyOps)
+	if r.chance(0.7) {
+		// make sure there is a stage that can switch to parallel execution
+		has := false
+		for _, st := range p.Stages {
+			if st.Op == "map" || st.Op == "accept" {
+				has = true
+			}
+		}
+		if !has {
+			st := Stage{Op: pick(r, "map", "map", "accept"), Fn: r.intn(4)}
+			if len(p.Stages) >= 6 {
+				p.Stages[r.intn(len(p.Stages))] = st
+			} else {
+				at := r.intn(len(p.Stages) + 1)
+				p.Stages = append(p.Stages[:at:at], append([]Stage{st}, p.Stages[at:]...)...)
+			}
+		}
+	}
 	// keep list growth bounded
 	crosses := 0
 	for i := range p.Stages {
